@@ -83,7 +83,7 @@ def real_solve(I, flags, argv_opts, pin_x=None, getter='get_results', bf=False,
     solution a MILP solver is entitled to return and is the one reported."""
     ns = repo.load('real')
     import pulp
-    d = tempfile.mkdtemp(prefix='vf_replay_')
+    from . import e2 as _e2
     out = {'exc': None, 'text': None, 'pin': None, 'solves': 0}
     orig = pulp.LpProblem.solve
     state = {'n': 0, 'probs': []}
@@ -96,7 +96,7 @@ def real_solve(I, flags, argv_opts, pin_x=None, getter='get_results', bf=False,
         return st
 
     try:
-        path = os.path.join(d, 'inst.txt')
+        path = _e2.scratch_file('replay.txt')
         with open(path, 'w') as f:
             f.write(spec.inst_to_text(I))
         argv = ['-f', path, '-na', str(I.na)]
@@ -153,7 +153,6 @@ def real_solve(I, flags, argv_opts, pin_x=None, getter='get_results', bf=False,
             out['exc'] = '%s: %s' % (type(e).__name__, e)
     finally:
         pulp.LpProblem.solve = orig
-        shutil.rmtree(d, ignore_errors=True)
     if out['text'] is not None:
         out['parsed'] = parse_results(out['text'])
     return out
